@@ -1,6 +1,9 @@
 package generator
 
 import (
+	"crypto/sha256"
+	"encoding/hex"
+	"hash"
 	"io"
 	"strconv"
 	"strings"
@@ -11,8 +14,9 @@ import (
 
 func NewRangeWriter(w io.Writer) *RangeWriter {
 	return &RangeWriter{
-		w:       w,
-		builder: &strings.Builder{},
+		w:        w,
+		builder:  &strings.Builder{},
+		skeleton: sha256.New(),
 	}
 }
 
@@ -25,6 +29,35 @@ type RangeWriter struct {
 	index    int
 	builder  *strings.Builder
 	Literals []string
+
+	// skeleton digests the Go code that is written, except the text of string
+	// literals (which watch mode can replace at runtime) and fragments written
+	// with WriteUnhashed. See Skeleton.
+	skeleton hash.Hash
+	unhashed bool
+}
+
+// Skeleton returns a digest of all Go code written so far, ignoring the text
+// of string literals. Two templates with the same skeleton compile to programs
+// that differ only in the strings passed to templruntime.WriteString.
+func (rw *RangeWriter) Skeleton() string {
+	if rw.skeleton == nil {
+		return ""
+	}
+	return hex.EncodeToString(rw.skeleton.Sum(nil))
+}
+
+// WriteUnhashed writes s like Write, but leaves it out of the skeleton. It is
+// used for fragments that do not affect rendering, e.g. source positions.
+func (rw *RangeWriter) WriteUnhashed(s string) (r parser.Range, err error) {
+	if rw.inLiteral {
+		if _, err = rw.closeLiteral(0); err != nil {
+			return
+		}
+	}
+	rw.unhashed = true
+	defer func() { rw.unhashed = false }()
+	return rw.write(s)
 }
 
 func (rw *RangeWriter) closeLiteral(indent int) (r parser.Range, err error) {
@@ -36,14 +69,20 @@ func (rw *RangeWriter) closeLiteral(indent int) (r parser.Range, err error) {
 	sb.WriteString(`templ_7745c5c3_Err = templruntime.WriteString(templ_7745c5c3_Buffer, `)
 	sb.WriteString(strconv.Itoa(rw.index))
 	sb.WriteString(`, "`)
+	if _, err := rw.write(sb.String()); err != nil {
+		return r, err
+	}
+	// The text of the literal is not part of the skeleton.
 	literal := rw.builder.String()
 	rw.Literals = append(rw.Literals, literal)
-	sb.WriteString(literal)
 	rw.builder.Reset()
-	sb.WriteString(`")`)
-	sb.WriteString("\n")
-
-	if _, err := rw.write(sb.String()); err != nil {
+	rw.unhashed = true
+	_, err = rw.write(literal)
+	rw.unhashed = false
+	if err != nil {
+		return r, err
+	}
+	if _, err := rw.write(`")` + "\n"); err != nil {
 		return r, err
 	}
 
@@ -80,6 +119,9 @@ func (rw *RangeWriter) Write(s string) (r parser.Range, err error) {
 }
 
 func (rw *RangeWriter) write(s string) (r parser.Range, err error) {
+	if rw.skeleton != nil && !rw.unhashed {
+		_, _ = io.WriteString(rw.skeleton, s)
+	}
 	r.From = parser.Position{
 		Index: rw.Current.Index,
 		Line:  rw.Current.Line,
